@@ -115,6 +115,15 @@ fn run_case(seed: u64, i: u64, cycles: usize, n_gates: usize) -> CaseOut {
                 let cd = log.iter().filter(|x| x.0 == KIND_COMB && !x.2).count() as u64;
                 let eb = log.iter().filter(|x| x.0 == KIND_EVENT && x.2).count() as u64;
                 let ed = log.iter().filter(|x| x.0 == KIND_EVENT && !x.2).count() as u64;
+                if (gc, ge) == (0, 0) && t != reference {
+                    // Compiled code from the very first dispatch already differs from pure Cranelift:
+                    // that is an engine disagreement (C02's business: cc vs Cranelift on this design),
+                    // not an effect of *when* the take-over happens.  The design cannot isolate the
+                    // swap, so it is not judged here (counted).
+                    out.status = "engines_disagree_without_any_swap".into();
+                    out.design = Some(d);
+                    return out;
+                }
                 out.gates_run.push((gc, ge));
                 out.swap_stats.push((cb, cd, eb, ed));
                 out.comparisons += t.steps.len() as u64;
